@@ -57,6 +57,7 @@ type State struct {
 	interior []interiorPtr
 	closT     map[string]*Closure // closures by the term that denotes them
 	allocTypes []allocType        // heap objects allocated on this path: pointer term -> element type
+	escaped   map[string]bool     // allocated objects that other code may reach
 	elemFacts []elemFact // assumed facts about every element of a slice returned by a library call
 }
 
@@ -89,7 +90,7 @@ func (u *Unit) copyBackInterior(s *State) {
 
 func newState() *State {
 	return &State{cells: map[ssa.Value]Term{}, regs: map[ssa.Value]Term{}, addrs: map[ssa.Value]Addr{}, tups: map[ssa.Value][]Term{},
-		arrs: map[ssa.Value]map[int64]Term{}, closures: map[ssa.Value]*Closure{}, closT: map[string]*Closure{}, heaps: map[string]Term{}, ghost: map[string]Term{}, visit: map[*ssa.BasicBlock]int{}}
+		arrs: map[ssa.Value]map[int64]Term{}, closures: map[ssa.Value]*Closure{}, closT: map[string]*Closure{}, escaped: map[string]bool{}, heaps: map[string]Term{}, ghost: map[string]Term{}, visit: map[*ssa.BasicBlock]int{}}
 }
 
 func (s *State) clone() *State {
@@ -118,6 +119,9 @@ func (s *State) clone() *State {
 	}
 	for k, v := range s.closT {
 		n.closT[k] = v
+	}
+	for k, v := range s.escaped {
+		n.escaped[k] = v
 	}
 	for k, v := range s.heaps {
 		n.heaps[k] = v
@@ -157,6 +161,7 @@ type Oblig struct {
 	Unit   *Unit
 	Values [][2]string // replay terms: name, smt term
 	Guides []string    // guide formulas (alternatives) for the realistic-model search
+	Classes []string   // known-finding classes for this obligation, evaluated in the obligation's state
 	Expect string      // "" => must be unsat (valid). "sat" => cover query
 }
 
@@ -404,6 +409,10 @@ func (u *Unit) load(s *State, a Addr) Term {
 			c = u.declOnce(fmt.Sprintf("in.e%d.%s", ep, cellName(x.key)), u.ss.sortOf(et))
 			c.T = et
 			u.typeFacts(s, c, et)
+			if !u.globalMutable(g) && c.Sort == "Iface" && (g.Pkg == nil || !strings.HasPrefix(g.Pkg.Pkg.Path(), u.p.modulePath)) {
+				// package-level error variables of dependencies (io.EOF, filepath.SkipDir, ...) are non-nil sentinels
+				s.assume(fmt.Sprintf("(= (itype %s) tag.plainerror)", c.S))
+			}
 		} else {
 			c = u.declOnce("in."+cellName(x.key), u.ss.sortOf(et))
 			c.T = et
@@ -454,6 +463,7 @@ func (u *Unit) store(s *State, a Addr, v Term) {
 		nv := u.define(s, "upd", Term{fmt.Sprintf("(mk.%s %s)", so, strings.Join(fs, " ")), so, x.typ})
 		u.store(s, x.base, nv)
 	case AddrElem:
+		u.markEscaped(s, v.S)
 		so := u.ss.sortOf(x.elem)
 		h := u.rheap(s, so)
 		nh := u.define(s, "region."+so, Term{S: fmt.Sprintf("(store %s %s (store (select %s %s) %s %s))", h.S, x.region.S, h.S, x.region.S, x.idx.S, v.S), Sort: h.Sort})
@@ -463,6 +473,9 @@ func (u *Unit) store(s *State, a Addr, v Term) {
 		h := u.pheap(s, so)
 		nh := u.define(s, "heap."+so, Term{S: fmt.Sprintf("(store %s %s %s)", h.S, x.ptr.S, v.S), Sort: h.Sort})
 		s.heaps["p:"+so] = nh
+		if !strings.HasPrefix(x.ptr.S, "new.") || s.escaped[x.ptr.S] {
+			u.markEscaped(s, v.S) // stored into memory others can reach
+		}
 	default:
 		panic(fmt.Sprintf("store %T", a))
 	}
@@ -493,6 +506,10 @@ func (u *Unit) typeFacts(s *State, v Term, t types.Type) {
 	case *types.Pointer:
 		s.assume(fmt.Sprintf("(and (<= 0 %s) (<= %s allocbase))", v.S, v.S))
 	case *types.Interface:
+		if types.Identical(t, types.Universe.Lookup("error").Type()) {
+			// an error value that exists already is not one created later by fmt.Errorf / errors.New
+			s.assume(fmt.Sprintf("(=> (= (itype %s) tag.plainerror) (<= (ival %s) allocbase))", v.S, v.S))
+		}
 		if names, ok := u.p.closedFor(t); ok {
 			var alts []string
 			alts = append(alts, fmt.Sprintf("(= (itype %s) 0)", v.S))
